@@ -106,7 +106,7 @@ def cases(tier, seed, prop):
     for _ in range(n // 4):
         t, v, f = gen_expr(rnd, 2, [rnd.randint(0, 6)])
         t = t.strip()
-        k = rnd.randrange(8)
+        k = rnd.randrange(9)
         nums = list(__import__('re').finditer(r'\d+(?:\.\d+)?|\.\d+', t))
         if k == 0 and nums:
             m = rnd.choice(nums); bad = t[:m.start()] + '()' + t[m.end():]; why = 'an empty pair of parentheses where an operand belongs'
@@ -117,6 +117,8 @@ def cases(tier, seed, prop):
         elif k == 5 and nums:
             m = rnd.choice(nums); bad = t[:m.end()] + rnd.choice([' * /', '/*', ' + *']) + ' 2' + t[m.end():]; why = 'two binary operators in a row'
         elif k == 6: bad = ')' + t + '('; why = 'parentheses the wrong way round'
+        elif k == 8:
+            t2 = gen_expr(rnd, 1, [rnd.randint(0, 3)])[0].strip(); bad = t + ')' + rnd.choice([' + ', '*', ' - ', '/']) + '(' + t2; why = 'a closing parenthesis before its opening one (totals balanced)'
         else: bad = '(' + t + ')(' + rnd.choice(['2', '1+1']) + ')'; why = 'a group directly after a group'
         if k == 5 and nums and bad.rstrip().endswith(('* / 2', '/* 2', '+ * 2')) is False and False: pass
         out.append({'s': bad, 'g': 'malformed', 'malformed': why})
